@@ -1,6 +1,9 @@
 package z80
 
-import "math/bits"
+import (
+	"bytes"
+	"math/bits"
+)
 
 // Micro-functions for translator validation of the engine's operator
 // semantics: every integer operator at every width and signedness, shifts
@@ -136,4 +139,47 @@ func VMicro() {
 	vObserve("m.bit", vB(a8&(1<<(n&7)) != 0))
 	vObserve("m.ite", uint64(vIteU8(a8 < b8, a8, b8)))
 	vObserve("m.bool", vB(vAnd(a8 < b8, vOr(a16 == b16, !(a32 > b32)))))
+	// aggregates: ground table read at a symbolic index (multiplexer encoding),
+	// block copies and appends with symbolic counts (ArrCopy terms), bytes.Buffer
+	vObserve("tbl.sq", uint64(vMicroTable[a8]))
+	vObserve("tbl.sq16", uint64(vMicroTable16[uint16(a8)<<1|uint16(b8&1)]))
+	src := vBytes("src", 16)
+	buf := make([]uint8, 16)
+	for i := range buf {
+		buf[i] = uint8(0xa0 + i)
+	}
+	cnt := int(a8 % 17)
+	off := int(b8 % 8)
+	got := copy(buf[off:], src[:cnt])
+	vObserve("copy.n", uint64(got))
+	vObserve("copy.at", uint64(buf[int(n%16)]))
+	copy(buf[2:], buf[:int(b8%12)]) // overlapping, symbolic count
+	vObserve("copy.overlap", uint64(buf[int(a16%16)]))
+	ap := make([]uint8, 2, 8)
+	ap[0], ap[1] = 0x11, 0x22
+	ap2 := append(ap, src[:int(a16%10)]...)
+	vObserve("append.len", uint64(len(ap2)))
+	vObserve("append.at", uint64(ap2[int(b16)%len(ap2)]))
+	vObserve("append.alias", uint64(ap[:8][int(n%8)]))
+	var bb bytes.Buffer
+	bb.WriteByte(a8)
+	bb.Write(src[:int(b16%9)])
+	bb.WriteByte(b8)
+	out := bb.Bytes()
+	vObserve("buffer.len", uint64(len(out)))
+	vObserve("buffer.at", uint64(out[int(a16)%len(out)]))
 }
+
+var vMicroTable = func() (t [256]uint8) {
+	for i := range t {
+		t[i] = uint8(i*i + 3*i + 1)
+	}
+	return
+}()
+
+var vMicroTable16 = func() (t [512]uint16) {
+	for i := range t {
+		t[i] = uint16(i*i*7 + 11)
+	}
+	return
+}()
